@@ -367,17 +367,101 @@ def _call(args):
             pass
 
 
+def _worker_loop(conn, fn):
+    try:
+        while True:
+            msg = conn.recv()
+            if msg is None:
+                break
+            idx, item = msg
+            conn.send((idx, _call((fn, item))))
+    except (EOFError, KeyboardInterrupt):
+        pass
+    finally:
+        os._exit(0)
+
+
+WORKER_CRASH_RETRIES = 1
+
+
 def pmap(fn, items, jobs=16, chunksize=1):
-    """parallel map with fork; fn must be a module-level function"""
+    """parallel map over forked, persistent workers; results in completion order.  Unlike multiprocessing.Pool it survives the
+    death of a worker (a segmentation fault inside the solver library has been seen): the item the worker was on is retried once in
+    a fresh worker and, if that dies too, comes back as an inconclusive result; all other items are unaffected."""
     items = list(items)
     if jobs <= 1 or len(items) <= 1:
         for it in items:
             yield _call((fn, it))
         return
+    from multiprocessing.connection import wait
     ctx = mp.get_context('fork')
-    with ctx.Pool(min(jobs, len(items))) as pool:
-        for r in pool.imap_unordered(_call, [(fn, it) for it in items], chunksize):
-            yield r
+    queue = list(range(len(items)))
+    attempts = {}
+    workers = {}          # connection -> [process, index of the item in flight or None]
+
+    def spawn():
+        parent, child = ctx.Pipe()
+        pr = ctx.Process(target=_worker_loop, args=(child, fn), daemon=True)
+        pr.start()
+        child.close()
+        workers[parent] = [pr, None]
+        return parent
+
+    def feed(conn):
+        if queue:
+            idx = queue.pop(0)
+            workers[conn][1] = idx
+            conn.send((idx, items[idx]))
+            return True
+        return False
+    try:
+        for _ in range(min(jobs, len(items))):
+            feed(spawn())
+        done = 0
+        while done < len(items):
+            busy = [c for c, (pr, idx) in workers.items() if idx is not None]
+            if not busy:
+                raise RuntimeError('parallel map: items left but no worker busy')
+            for conn in wait(busy):
+                pr, idx = workers[conn]
+                try:
+                    ridx, res = conn.recv()
+                except (EOFError, OSError):
+                    # the worker died while on items[idx]
+                    pr.join(timeout=5)
+                    del workers[conn]
+                    try:
+                        conn.close()
+                    except Exception:
+                        pass
+                    attempts[idx] = attempts.get(idx, 0) + 1
+                    if attempts[idx] <= WORKER_CRASH_RETRIES:
+                        queue.append(idx)
+                    else:
+                        r = worker_result()
+                        r['inconclusive'].append('worker process died %d times (exit code %s) on work item %r' % (attempts[idx], pr.exitcode, str(items[idx])[:200]))
+                        done += 1
+                        yield r
+                    feed(spawn())
+                    continue
+                workers[conn][1] = None
+                done += 1
+                yield res
+                feed(conn)
+    finally:
+        for conn, (pr, idx) in list(workers.items()):
+            try:
+                conn.send(None)
+            except Exception:
+                pass
+        for conn, (pr, idx) in list(workers.items()):
+            pr.join(timeout=2)
+            if pr.is_alive():
+                pr.terminate()
+            try:
+                conn.close()
+            except Exception:
+                pass
 
 
 class CpuTimeout(Exception):
